@@ -48,7 +48,7 @@ _AT_CONST = _compiles(
     "int probe(const phosg::LRUMap<int, int>& m) { return m.at(1); }\n")
 
 CFG = P(
-    harness=["harness/C12.cc"], harness_deps=["harness/bfs.hh"],
+    harness=["harness/C12.cc", "harness/C12_types.cc", "harness/C12_big.cc"], harness_deps=["harness/bfs.hh", "harness/C12_core.hh"],
     srcs=[],
     harness_cxxflags=["-fno-access-control"] + (["-DC12_HAVE_INSERT_CONSTREF"] if _INSERT_CONSTREF else []) + (["-DC12_HAVE_AT_CONST"] if _AT_CONST else []),
     deadline={"quick": 600, "thorough": 3600},
